@@ -51,6 +51,10 @@ struct PendingLoss {
 struct Conn {
     spaces: [SpaceSt; 3],
     metrics: HashMap<u64, Metrics>,
+    /// in-flight packets (ack-eliciting or padded, RFC 9002 2) handed to the TX tap and not
+    /// yet acknowledged, declared lost or discarded - per packet number space
+    in_flight: [std::collections::BTreeSet<u64>; 3],
+    stale_metrics: u32,
     /// path id -> remote port (Started, PathCreated, ActivePath events)
     path_port: HashMap<u64, u16>,
     pending: Vec<PendingLoss>,
@@ -84,6 +88,7 @@ struct CcShadow {
 }
 
 pub struct C09 {
+    retry_seen: std::collections::HashSet<EpId>,
     conns: HashMap<(EpId, u64), Conn>,
     cc: HashMap<u64, CcShadow>,
     initial_rtt_us: Vec<u64>,
@@ -98,6 +103,7 @@ impl C09 {
             initial_rtt_us.push(c.cfg.initial_rtt_ms * 1000);
         }
         C09 {
+            retry_seen: Default::default(),
             conns: HashMap::new(),
             cc: HashMap::new(),
             initial_rtt_us,
@@ -248,6 +254,10 @@ impl Monitor for C09 {
             Evt::AckRange { space, lo, hi, .. } => {
                 // any acknowledgement may reset the back-off
                 c.chain_n = 0;
+                let acked: Vec<u64> = c.in_flight[space.idx()].range(*lo..=*hi).copied().collect();
+                for pn in acked {
+                    c.in_flight[space.idx()].remove(&pn);
+                }
                 let s = &mut c.spaces[space.idx()];
                 for (pn, st) in s.sent.range_mut(*lo..=*hi) {
                     match st.res {
@@ -277,6 +287,7 @@ impl Monitor for C09 {
                 ..
             } => {
                 cx.feature("loss");
+                c.in_flight[space.idx()].remove(pn);
                 let s = &mut c.spaces[space.idx()];
                 let la = s.largest_acked;
                 match s.sent.get_mut(pn) {
@@ -342,6 +353,24 @@ impl Monitor for C09 {
                     cx.summary.count("c09.pto_expiries_seen", 1);
                 }
                 c.last_pto_count = m.pto_count;
+                // (c) no leak: when every in-flight packet the endpoint ever produced is
+                // resolved, the controller's bytes-in-flight figure must be back at zero
+                let stale = c.stale_metrics > 0;
+                c.stale_metrics = c.stale_metrics.saturating_sub(1);
+                if !stale && !c.closed && c.in_flight.iter().all(|s| s.is_empty()) {
+                    cx.summary.count("c09.bif_checked_at_quiescence", 1);
+                    if m.bif > 0 {
+                        cx.violate(
+                            "C09",
+                            "bif-leak",
+                            format!(
+                                "ep{ep} c{conn}: every in-flight packet is acknowledged, lost or discarded, yet path {} still reports {} bytes in flight",
+                                m.path_id, m.bif
+                            ),
+                            json!({"ep": ep, "conn": conn, "metrics": format!("{m:?}")}),
+                        );
+                    }
+                }
                 // (d) RTT sanity
                 let first = !c.metrics.contains_key(&m.path_id);
                 let initial = self.initial_rtt_us.get(ep).copied().unwrap_or(333_000);
@@ -382,6 +411,11 @@ impl Monitor for C09 {
                 c.metrics.insert(m.path_id, m.clone());
             }
             Evt::SpaceDiscarded { space } => {
+                c.in_flight[space.idx()].clear();
+                // recovery::Manager::on_packet_number_space_discarded publishes the recovery
+                // metrics *before* it takes the discarded bytes out of the controller: the
+                // metrics event that follows is one step behind
+                c.stale_metrics = 1;
                 let s = &mut c.spaces[space.idx()];
                 s.discarded = true;
                 let n = s.sent.values().filter(|x| x.res == Res::Outstanding).count();
@@ -401,11 +435,29 @@ impl Monitor for C09 {
         }
     }
 
-    fn on_wire(&mut self, _cx: &mut Ctx, w: &Wire, _fate: &Fate) {
+    fn on_wire(&mut self, cx: &mut Ctx, w: &Wire, _fate: &Fate) {
         if w.injected {
             return;
         }
         let Some(src) = w.src else { return };
+        // A client that accepted a Retry discards every Initial packet it had outstanding and
+        // starts over with Initial packets that carry the token (a Retry it rejects - wrong
+        // integrity tag, second Retry - changes nothing): the first token-bearing Initial on
+        // the wire marks the point.
+        if src != SERVER && !self.retry_seen.contains(&src) && w.bytes.first().map(|b| b & 0xf0) == Some(0xc0) {
+            if let Ok(vq_wire::Header::Long { ty: vq_wire::LongType::Initial, token, .. }) = vq_wire::header(&w.bytes, 0) {
+                if !token.is_empty() {
+                    self.retry_seen.insert(src);
+                    cx.summary.count("c09.retries_accepted", 1);
+                    let keep: Vec<u64> = w.pkts.iter().filter(|(_, s, _)| *s == Space::Initial).map(|(_, _, pn)| *pn).collect();
+                    for (conn, _, _) in w.pkts.iter().take(1) {
+                        if let Some(c) = self.conns.get_mut(&(src, *conn)) {
+                            c.in_flight[Space::Initial.idx()].retain(|pn| keep.contains(pn));
+                        }
+                    }
+                }
+            }
+        }
         for (conn, space, pn) in &w.pkts {
             if let Some(c) = self.conns.get_mut(&(src, *conn)) {
                 if let Some(st) = c.spaces[space.idx()].sent.get_mut(pn) {
@@ -416,6 +468,12 @@ impl Monitor for C09 {
     }
 
     fn on_tx(&mut self, _cx: &mut Ctx, p: &Pkt) {
+        if p.ack_eliciting() || p.frames.iter().any(|f| matches!(f, vq_wire::Frame::Padding { .. })) {
+            let c = self.conns.entry((p.ep, p.conn)).or_default();
+            if !c.spaces[p.space.idx()].discarded {
+                c.in_flight[p.space.idx()].insert(p.pn);
+            }
+        }
         if p.space == Space::App && p.ack_eliciting() {
             let c = self.conns.entry((p.ep, p.conn)).or_default();
             if p.t > c.last_ae_tx {
